@@ -3790,7 +3790,7 @@ type DelayTrigger struct {
 }
 
 func (w *DelayTrigger) Format(buf *TrackedBuffer) {
-	buf.Myprintf("DELAY %v", w.Delay)
+	buf.Myprintf("AFTER DELAY %v", w.Delay)
 }
 
 func (w *DelayTrigger) walkSubtree(visit Visit) error {
